@@ -1131,6 +1131,13 @@ class EffDomain(Domain):
             for l in a0.locs:
                 out.add(eng.new(eng.site(self.frame, e), self.frame, l.ty, implicit=True))
             return Val(out)
+        if dotted in ('itertools.chain', 'itertools.chain.from_iterable'):
+            # the elements of the arguments (chain) / of the elements of the argument (from_iterable), in one sequence
+            out = IMMV
+            for a in args:
+                el = self.iter_elems(a)
+                out = vjoin(out, self.iter_elems(el) if dotted.endswith('from_iterable') else el)
+            return self.fresh_container(e, 'list', out)
         if dotted.startswith('itertools.') or dotted in ('itertools',):
             out = IMMV
             for a in args:
